@@ -37,6 +37,7 @@ NEEDS = {
     "X_CellLocations": ["celllocs"], "X_FaceLocations": ["facelocs"], "X_GradFixedBC": ["gradfixed"],
     "X_FaceCtorScalar": ["facector_scalar"], "X_FaceCtorTuple": ["facector_scalar"], "X_Utility": ["utility"],
     "X_Integral": ["integral", "volume"],
+    "X_MeshIndex": ["meshindex"],
     "C04_DiffInterior": ["Mdiff"], "C04_ConvInterior": ["Mconv"], "C04_UpInterior": ["Mup"],
 }
 # observed outputs that have a reference counterpart (conformance tripwire)
